@@ -91,10 +91,18 @@ Definition ids_eqb (a b : list Z) : bool := all2 Z.eqb a b.
 Definition aligned_b (cands : list Z) (o : obs) : bool := ids_eqb cands (map fst o).
 Fixpoint lookup (i : Z) (o : obs) : option (option Q) :=
   match o with [] => None | (j, s) :: r => if Z.eqb i j then Some s else lookup i r end.
+(* Tolerance of the metamorphic comparisons (permuted list, halves against the full list).  The scores are single-precision
+   products evaluated by a different BLAS / torch / scipy kernel when the list has another size (gemv over the whole item
+   table then gather, against a gather then a short dot): the two results differ by about eps32 * sum |terms|, which is NOT
+   small relative to the result when the terms cancel (embedding products of size 20 summing to 1 differ by 1.2e-6, i.e.
+   1.2 * 2^-20 relative).  The policy is therefore 2^-16 relative to the larger of the two scores with an absolute floor of
+   2^-16 for scores below 1:   |x - y| <= 2^-16 * max(1, |x|, |y|).
+   Repeated calls (same list, same query) are compared exactly (`same_b`), never with this tolerance. *)
+Definition tol_meta : Q := 1 # 65536.                        (* 2^-16 *)
 Definition score_close (tol : Q) (a b : option Q) : bool :=
   match a, b with
   | None, None => true
-  | Some x, Some y => Qle_bool (Qabs (x - y)) (tol * Qmaxq 1 (Qabs y))
+  | Some x, Some y => Qle_bool (Qabs (x - y)) (tol * Qmaxq 1 (Qmaxq (Qabs x) (Qabs y)))
   | _, _ => false
   end.
 (* every entry of `other` carries the score the base call gave to the same item *)
@@ -114,13 +122,15 @@ Definition unknown_ok (pol : unknown_policy) (vocab : list Z) (o : obs) : bool :
 
 Record call_obs := {
   c_cands : list Z; c_perm : list Z; c_half_a : list Z; c_half_b : list Z;
-  c_base : obs; c_repeat : obs; c_permuted : obs; c_a : obs; c_b : obs; c_again : obs
+  c_base : obs; c_repeat : obs; c_permuted : obs; c_a : obs; c_b : obs; c_again : obs;
+  c_fresh : obs      (* a fresh query object of the same content, history and candidates given plainly by identifier *)
 }.
 Definition call_ok (tol : Q) (pol : unknown_policy) (vocab : list Z) (c : call_obs) : bool :=
   aligned_b (c_cands c) (c_base c) && aligned_b (c_cands c) (c_repeat c) && aligned_b (c_cands c) (c_again c)
   && aligned_b (c_perm c) (c_permuted c) && aligned_b (c_half_a c) (c_a c) && aligned_b (c_half_b c) (c_b c)
   && unknown_ok pol vocab (c_base c)
-  && same_b (c_base c) (c_repeat c) && same_b (c_base c) (c_again c)
+  && aligned_b (c_cands c) (c_fresh c)
+  && same_b (c_base c) (c_repeat c) && same_b (c_base c) (c_again c) && same_b (c_base c) (c_fresh c)
   && consistent_b tol (c_base c) (c_permuted c) && consistent_b tol (c_base c) (c_a c) && consistent_b tol (c_base c) (c_b c).
 
 (* ---- the caller's inputs read back after every call ----
